@@ -1,2 +1,3 @@
 //! Models shared by several Mode C suites.
 pub mod ideal_hash;
+pub mod bitranges;
